@@ -14,7 +14,7 @@
 
 namespace {
 
-struct TestError : std::exception {};
+struct TestError {};  // deliberately not derived from std::exception: a source may end by throwing anything
 static long g_guard_live;
 struct Guard {
     Guard() { ++g_guard_live; }
